@@ -30,6 +30,9 @@ type c01Args struct {
 	ReadSeed  int64       `json:"read_seed"`
 	YieldSeed uint64      `json:"yield_seed"`
 	ReadsFirst int        `json:"reads_first"` // read-then-readall: number of Read calls before ReadAll
+	// LateReader: the reader starts only once the pipe is full (a writer is parked on the
+	// back-pressure limit) or every writer has finished
+	LateReader bool `json:"late_reader,omitempty"`
 }
 
 type c01Chunk struct {
@@ -274,6 +277,17 @@ func init() {
 				}
 			}
 			return false
+		}
+		if a.LateReader {
+			for polls := 0; polls < 20000; polls++ {
+				buffered, deps, max := stream.VerifPeek()
+				if deps < 1 || (max > 0 && buffered >= max) {
+					break
+				}
+				time.Sleep(100 * time.Microsecond)
+			}
+			// let the writer that found the pipe full settle into its wait
+			time.Sleep(5 * time.Millisecond)
 		}
 		switch a.Reader {
 		case "read":
